@@ -33,6 +33,28 @@ claim("C01", "proof",
       "static analysis: partial evaluation of kernels to terms + polynomial identity testing",
       "DESIGN.md §5 C01")
 
+claim("C03", "proof",
+      "The integrated variational system is proved to be (f, Df*Phi) with Phi(0)=I in the 36+6 row-major layout that "
+      "_compute_stm builds and slices (interpreted with the propagator abstracted); the extracted Jacobian satisfies "
+      "F^T W + W F = 0 for the rotating-frame canonical two-form (36 identities), hence the flow derivative is symplectic; "
+      "every _DirectedSystem/_propagate_dynsys site where the direction may be -1 must negate the whole state; the "
+      "monodromy/stability services are wired to the orbit's own variational system, state and period.",
+      "Trusted: variational theorem, Liouville (infinitesimally symplectic => symplectic), kpe/numpy fragment semantics. "
+      "Not decided: numerical accuracy of Phi, the reciprocal-pair matching heuristic on computed eigenvalues.",
+      "static analysis: partial evaluation + polynomial identities; argument rule over resolved call sites",
+      "DESIGN.md §5 C03")
+
+claim("C12", "other",
+      "Classification code (comparison-only) is evaluated exhaustively over the order-abstract regions of |lambda| and "
+      "Re(lambda); result-field and tuple orders of the linalg pipeline, the real-eigenvector mask, the branch selection, "
+      "the seed formula (as a term identity), direction flags and the retention guards (all 4 guard outcome "
+      "combinations) are extracted by interpreting the service code on symbolic data; a call-site rule requires the "
+      "classified/transporting transition matrix to be the forward one.",
+      "Trusted: Floquet transport Phi(t)v, kpe semantics, stubs of propagation/eigen-solver (abstracted as uninterpreted "
+      "data). Not decided: accuracy of computed eigenvectors and of the STM.",
+      "static analysis: partial evaluation on symbolic data, order-abstract region enumeration, call-site rules",
+      "DESIGN.md §5 C12")
+
 PENDING = ["C02", "C03", "C04", "C05", "C06", "C07", "C08", "C09", "C10", "C11", "C12", "C13", "C14", "C15",
            "C16", "C17", "C18", "C19", "C20"]
 
